@@ -64,6 +64,7 @@ func taintContext(variant int) pongo2.Context {
 		"pairs":     []any{1, taint("pair"), 3.5, nil, c02StructStr{"pairstr"}},
 		"nested":    map[string]any{"inner": map[string]any{"x": taint("deep")}},
 		"incname":   "/lazy.tpl",
+		"kidname":   "/kid.tpl",
 		"greet":     func(s string) string { return taint("greet") + s },
 		"twice":     func(i int) int { return 2 * i },
 		"sum":       func(xs ...int) int { return len(xs) },
@@ -172,7 +173,9 @@ type c02F struct {
 
 var c02Forms = []string{"{{ IN|F }}", "{{ IN|F:name }}", "{{ 1|F:name }}", "{{ IN|F:2 }}", "{% for q in IN|F %}{{ q }}{% endfor %}", "{% with w=IN|F %}{{ w }}{% endwith %}",
 	"{% firstof IN|F %}", "{{ IN|F|F }}", "{{ [IN]|F }}", "{% for q in [IN, name]|F %}{{ q }}{% endfor %}", "{% set w = [IN]|F %}{{ w.0 }}{{ w }}", "{% cycle IN|F name %}",
-	"{% macro mm(a) %}{{ a }}{% endmacro %}{{ mm(IN|F) }}", "{{ IN|F:\"x\"|F:name }}"}
+	"{% macro mm(a) %}{{ a }}{% endmacro %}{{ mm(IN|F) }}", "{{ IN|F:\"x\"|F:name }}",
+	// a harmless input of every other kind with a tainted parameter (a layout, a separator, a default ...)
+	"{{ when|F:name }}", "{{ n|F:name }}", "{{ ratio|F:name }}", "{{ nums|F:name }}", "{{ flag|F:name }}", "{{ nothing|F:name }}"}
 
 var c02Inputs = []string{"name", "st_struct", "st_int", "st_ptr", "items", "m", "pairs", "named", "pstr", "obj", "title", "err", "bytes"}
 
@@ -203,7 +206,7 @@ func checkC02F(c any, r *Rec) error {
 
 var _ = register(&propSpec{
 	ID:   "C02.filter",
-	Rule: "every registered filter (registry hook; the three documented opt-outs skipped) applied to each of 13 tainted inputs (string, Stringers on struct / int / pointer, list, map, []any, defined string type, *string, struct, error, []byte) in 14 forms (printed, with tainted parameter, as parameter of a literal, iterated, bound by with / set, firstof, twice, inside an array literal, indexed after set, cycle, macro argument). Exhaustive over filter x input x form. Same oracle as C02.program.",
+	Rule: "every registered filter (registry hook; the three documented opt-outs skipped) applied to each of 13 tainted inputs (string, Stringers on struct / int / pointer, list, map, []any, defined string type, *string, struct, error, []byte) in 20 forms (printed, with tainted parameter, a time / number / list / bool / nil input with a tainted parameter, as parameter of a literal, iterated, bound by with / set, firstof, twice, inside an array literal, indexed after set, cycle, macro argument). Exhaustive over filter x input x form. Same oracle as C02.program.",
 	Gen: func(t *rapid.T) any {
 		return &c02F{Filter: pick(t, "f", pongo2.VerifRegisteredFilters()), Form: pick(t, "form", c02Forms), Input: pick(t, "in", c02Inputs)}
 	},
